@@ -241,8 +241,8 @@ class ExtraOps:
         memo = {}
         try:
             truth = interp(w, t.rel, memo)
-        except InterpError:
-            return
+        except (InterpError, KeyError):
+            return          # not a tree the interpreter can give a meaning to (reported elsewhere)
         executor = None
         if mode == "truth":
             executor = lambda r: len(interp(w, r, memo)) > 0  # noqa
